@@ -37,22 +37,28 @@ Proof.
   lia.
 Qed.
 
-Lemma size_le_55 : forall e, e < 36028797018963968 -> N.size e <= 55.
+Lemma size_le_63 : forall e, e < 9223372036854775808 -> N.size e <= 63.
 Proof.
   intros e H. destruct (N.eq_dec e 0) as [->|Hz]; [cbn; lia|].
   rewrite N.size_log2 by assumption.
-  assert (N.log2 e < 55); [|lia].
+  assert (N.log2 e < 63); [|lia].
   apply N.log2_lt_pow2; [lia|exact H].
 Qed.
 
+(* an int64-sized value: at most 8 content octets (8 magnitude octets only when the top bit is clear) *)
 Lemma exp_wf_length : forall e, exp_wf e = true -> (length (der_int_enc e) <= 8)%nat.
 Proof.
   intros e H. unfold exp_wf in H. apply N.ltb_lt in H.
-  pose proof (der_int_enc_length e). pose proof (length_be_min e) as L.
-  pose proof (size_le_55 e H).
-  assert ((N.size e + 7) / 8 < 8).
-  { apply N.div_lt_upper_bound; lia. }
-  lia.
+  pose proof (length_be_min e) as L. pose proof (size_le_63 e H) as S63.
+  assert (B8 : (N.size e + 7) / 8 < 9) by (apply N.div_lt_upper_bound; lia).
+  pose proof (be_to_N_be_min e) as V.
+  unfold der_int_enc. destruct (be_min e) as [|x r] eqn:B; [cbn [length]; lia|].
+  destruct (128 <=? x) eqn:Top; [|lia].
+  apply N.leb_le in Top. cbn [length] in *.
+  destruct (Nat.le_gt_cases (length r) 6) as [Hs|Hl]; [lia|].
+  exfalso. rewrite be_to_N_cons in V.
+  assert (256 ^ 7 <= 256 ^ N.of_nat (length r)) by (apply N.pow_le_mono_r; lia).
+  change (256 ^ 7) with 72057594037927936 in *. nia.
 Qed.
 
 Lemma enc_int_length : forall n, int_wf n = true -> N.of_nat (length (enc_int n)) <= 1048584.
@@ -64,7 +70,7 @@ Qed.
 Lemma exp_wf_int_wf : forall e, exp_wf e = true -> int_wf e = true.
 Proof.
   intros e H. unfold exp_wf in H. apply N.ltb_lt in H. unfold int_wf. apply N.leb_le.
-  pose proof (size_le_55 e H). lia.
+  pose proof (size_le_63 e H). lia.
 Qed.
 
 (* ------------------------------------------------------------------ *)
